@@ -403,6 +403,25 @@ def special_values(rep):
 			except Exception as e:
 				rep.diff('continuous families', '%s at x=%r raised %s' % (nm, x, err_enum(e)), case, oracle=True, theorem=THEOREM)
 	disc = [('poisson_loss(mean=%r)' % m, lambda x, m=m: tuple(lf.poisson_loss(x, m)) + tuple(lf.poisson_second_loss(x, m)), stats.poisson(m)) for m in (1, 1.0, 0.5, 2)]
+	# large Poisson means (exp(-mean) is subnormal from about 708 and 0.0 from 746): the arguments around the mean
+	big = [('poisson_loss(mean=%r)' % m, lambda x, m=m: tuple(lf.poisson_loss(x, m)) + tuple(lf.poisson_second_loss(x, m)), stats.poisson(m), xs_)
+		   for m, xs_ in ((200, (180, 200, 215)), (730, (700, 730, 760)), (750, (720, 760)), (1000, (950, 1000, 1040)))]
+	for nm, fn, dist, xs_ in big:
+		lo_b, hi_b = int(dist.ppf(1e-16)), int(dist.ppf(1 - 1e-16)) + 5
+		pm = [(y, float(dist.pmf(y))) for y in range(max(0, lo_b - 5), hi_b + 1)]
+		for x in xs_:
+			case = {'family': 'special-values', 'call': nm, 'x': x}
+			rep.case('discrete(closed forms)', case); rep.count('family:large-poisson-mean'); rep.tol_cmp += 1
+			try:
+				with warnings.catch_warnings():
+					warnings.simplefilter('ignore')
+					got = [float(t) for t in fn(x)]
+				want = [sum(q * max(y - x, 0) for y, q in pm), sum(q * max(x - y, 0) for y, q in pm),
+						0.5 * sum(q * max(y - x, 0) * max(y - x - 1, 0) for y, q in pm), 0.5 * sum(q * max(x - y, 0) * max(x - y + 1, 0) for y, q in pm)]
+				if not all(close(a_, b_, 1e-6) for a_, b_ in zip(got, want)):
+					rep.diff('discrete(closed forms)', '%s at x=%r: %r, the definitions by summation give %r' % (nm, x, got, want), case, py=got, model=want, oracle=True, theorem=THEOREM)
+			except Exception as e:
+				rep.diff('discrete(closed forms)', '%s at x=%r raised %s' % (nm, x, err_enum(e)), case, oracle=True, theorem=THEOREM)
 	disc += [('geometric_loss(p=%r)' % pp, lambda x, pp=pp: tuple(lf.geometric_loss(x, pp)) + tuple(lf.geometric_second_loss(x, pp)), stats.geom(pp)) for pp in (0.5, 0.25, 0.9)]
 	disc += [('negative_binomial_loss(r=%r, p=%r)' % (r, pp), lambda x, r=r, pp=pp: tuple(lf.negative_binomial_loss(x, r, pp)) + tuple(lf.negative_binomial_second_loss(x, r, pp)), stats.nbinom(r, pp))
 			 for r, pp in ((1, 0.3), (1, 0.5), (2, 0.5))]
